@@ -55,8 +55,12 @@ TRUSTED = ['z3 quantifier instantiation']
 def tasks(tier):
     # Solver.reorder_particles (re-order every array, then update the
     # neighbour structures) is contracted in C05: re-proved here
+    # "queries are exact after the following update": the sorted-key classes
+    # must re-sort after a re-ordering (C01 sortkeys), every array is binned
+    # whole (C01 update): re-proved here
     return ['refresh', 'bin', 'walk', 'copy', 'apply', 'canary',
-            'dep:C05:reorder', 'dep:C06:align', 'lemma']
+            'dep:C05:reorder', 'dep:C06:align', 'dep:C01:sortkeys',
+            'dep:C01:update', 'lemma']
 
 
 def carr(name, length=None, elem='int'):
